@@ -8,7 +8,7 @@ use super::*;
 use crate::ops::Container;
 
 pub fn run(ctx: &mut Ctx, reg: &Registry) {
-    let nvals = nvals(ctx, 8, 60);
+    let nvals = nvals(ctx, 30, 60);
     for (fi, fam) in reg.families.iter().enumerate() {
         if !ctx.mine(fi) || !ctx.wants_type(fam.name) {
             continue;
